@@ -243,6 +243,8 @@ difference that refers to *some other* position (on any ellipsoid), on either si
 inductive HOp
   | un (o : Op)
   | withDelta (plus : Bool) (deltaLeft : Bool) (ref : Option Nat)
+  | retag (e : Option Nat)   -- `pos.ellipsoid = E'` (after conversions may already have been evaluated and cached)
+  | poke                     -- `pos[...] = …` item assignment (values change, attributes stay)
   deriving Repr, DecidableEq
 
 /-- one step of a history (`none`: the operation raised / returned no position) -/
@@ -254,11 +256,58 @@ def hstep (sites : List Site) (tbl : List Branch) (fs : List FactorySite) (p : P
     match (if deltaLeft then binop tbl fs plus true d me else binop tbl fs plus true me d) with
     | .value (.pos q) _ => some ⟨p.cls, q.ell⟩
     | _ => none
+  | .retag e => some ⟨p.cls, e⟩
+  | .poke => some p
 
 def hrun (sites : List Site) (tbl : List Branch) (fs : List FactorySite) (p : PosTag) : List HOp → Option PosTag
   | [] => some p
   | o :: os => match hstep sites tbl fs p o with
     | some q => hrun sites tbl fs q os
     | none => none
+
+/-- the tag a position carries after a history according to the property: the ellipsoid it was created with, or the one
+assigned last by `pos.ellipsoid = E'` -/
+def tagAfter (e : Option Nat) : List HOp → Option Nat
+  | [] => e
+  | .retag e' :: os => tagAfter e' os
+  | _ :: os => tagAfter e os
+
+/-- the cached conversion of the current object: the ellipsoid it was evaluated on and whether the values it was
+computed from are still the values of the object (`none`: nothing cached) -/
+abbrev CacheTag := Option (Option Nat × Bool)
+
+/-- an answer of `convert`: the ellipsoid the returned coordinates were evaluated on, the tag of the object at that
+moment, and whether they were computed from the object's current values -/
+structure Answer where
+  on : Option Nat
+  tag : Option Nat
+  current : Bool
+  deriving Repr, DecidableEq
+
+/-- the conversions of a history as they are *answered*, cache included.  `convert` is answered from the cache when
+there is one, otherwise evaluated on the current tag from the current values; its result is a new object (empty cache).
+`retag e` stands for: a conversion is evaluated (and cached), then `pos.ellipsoid = e`; `poke`: a conversion is
+evaluated (and cached), then `pos[...] = …`.  The assignments clear the cache iff `__setattr__` / `__setitem__` do
+(`clrA`, `clrI`, read off the source).  Every other operation returns a new object with an empty cache. -/
+def hanswered (sites : List Site) (tbl : List Branch) (fs : List FactorySite) (clrA clrI : Bool) (p : PosTag) (cache : CacheTag) :
+    List HOp → List Answer
+  | [] => []
+  | o :: os =>
+    match hstep sites tbl fs p o with
+    | none => []
+    | some p' =>
+      match o with
+      | .un .convert =>
+        let a : Answer := match cache with
+          | some (e, cur) => ⟨e, p.ell, cur⟩
+          | none => ⟨p.ell, p.ell, true⟩
+        a :: hanswered sites tbl fs clrA clrI p' none os
+      | .retag _ =>
+        let filled : CacheTag := match cache with | some c => some c | none => some (p.ell, true)
+        hanswered sites tbl fs clrA clrI p' (if clrA then none else filled) os
+      | .poke =>
+        let filled : CacheTag := match cache with | some c => some c | none => some (p.ell, true)
+        hanswered sites tbl fs clrA clrI p' (if clrI then none else filled.map (fun c => (c.1, false))) os
+      | _ => hanswered sites tbl fs clrA clrI p' none os
 
 end Midgard.Geo
